@@ -4,7 +4,10 @@ from . import tlc as T
 
 CONFIGS = {"quick": [dict(name="attrs-1p2l", plain=("t1",), links=("l1", "l2"), ro=()),
                      dict(name="attrs-ro2l", plain=("t1",), links=("l1", "l2"), ro=("t1",))],
-           "thorough": [dict(name="attrs-2p2l", plain=("t1", "t2"), links=("l1", "l2"), ro=("t2",))]}
+           # (two ordinary and two link nodes exhaust the Java heap: 2+1 and 1+2 instead)
+           "thorough": [dict(name="attrs-1p2l", plain=("t1",), links=("l1", "l2"), ro=()),
+                        dict(name="attrs-ro2l", plain=("t1",), links=("l1", "l2"), ro=("t1",)),
+                        dict(name="attrs-2p1l", plain=("t1", "t2"), links=("l1",), ro=("t2",))]}
 
 
 def tlc_cfg(c):
